@@ -3,6 +3,7 @@ import Blue.Model.LogHeader
 import Blue.Model.EntryCodec
 import Blue.Model.Crc32c
 import Blue.Model.FsyncCore
+import Blue.Model.ConcLog
 import Blue.Driver.Util
 /-! Driver verbs for the log model (property C12), instance token `log`.
 
@@ -336,6 +337,129 @@ def handle : List String → String
           "len=" ++ toString file.length ++ " fnv=" ++ hex64 (fnv file) ++ " start=" ++ toString start ++ " cuts="
             ++ ",".intercalate (rle results none [])
       | _, _ => "bad-op"
+    | _, _ => "bad-op"
+  | _ => "bad-op"
+
+/-! ### the composed model `Blue.ConcLog` replayed as a whole (instance token `conclog`)
+
+    `conclog lim=<N> :: ev*` with
+      ev := L<batch> | W<n> | F<i> | E<n> | R<0|1>     `link buf | write n | flink i | fenter n | fret ok`
+    (`batch` as above: the caller's `WriteBatch`, its buffer is the concatenation of the encoded
+    entries).  The reply renders the final `St` of `Blue.ConcLog.run P lim evs`:
+      `len= fnv=`   `crashA file`
+      `ans=`        per caller (index = link order) `ok` / `err` / `-` (not answered) / `multi`
+      `wr=`         per caller `<record>.<offset of its buffer inside the record's payload>`
+      `written=`    `St.written`
+      `synced=`     `file.synced.length` after every `fret`
+      `core=`       `fs.synced` (the fsync core's field, a cumulative payload count)
+      `seq=`        the conclusion of `conc_log_file_is_sequential` evaluated on the run
+      `dur=`        the conclusion of `conc_log_ack_is_durable` for every acknowledged caller, with
+                    `t` = 0, half and all of the pending bytes
+      `ord=`        the same observations result when the `flink`s of every round are reversed -/
+
+def parseConcEv (tok : String) : Option Blue.ConcLog.Ev :=
+  match tok.toList with
+  | 'L' :: r =>
+    match parseBatch (String.ofList r) with
+    | some es => if es.isEmpty then none else some (.link (es.foldr (fun e acc => encEntry e ++ acc) []))
+    | none => none
+  | 'W' :: r => (String.ofList r).toNat?.map .write
+  | 'F' :: r => (String.ofList r).toNat?.map .flink
+  | 'E' :: r => (String.ofList r).toNat?.map .fenter
+  | ['R', '1'] => some (.fret true)
+  | ['R', '0'] => some (.fret false)
+  | _ => none
+
+/-- `file.synced.length` after every `fret` of the run -/
+def syncedAfterFrets (lim : Nat) (evs : List Blue.ConcLog.Ev) : List Nat :=
+  (evs.foldl (fun (st : Blue.ConcLog.St × List Nat) e =>
+    let s' := Blue.ConcLog.step P lim st.1 e
+    match e with
+    | .fret _ => (s', s'.file.synced.length :: st.2)
+    | _ => (s', st.2)) (Blue.ConcLog.init, [])).2.reverse
+
+def concAns (s : Blue.ConcLog.St) : List String :=
+  (List.range s.bufs.length).map fun i =>
+    match s.answers.filter (fun a => a.1 == i) with
+    | [] => "-"
+    | [(_, true)] => "ok"
+    | [(_, false)] => "err"
+    | _ => "multi"
+
+/-- offsets of the buffers of one batch inside the merged record -/
+def offsetsIn : List (List Nat) → Nat → List Nat
+  | [], _ => []
+  | b :: bs, o => o :: offsetsIn bs (o + b.length)
+
+/-- per caller handed to the write core: the record (`WRet.round`) and the offset inside it -/
+def concPlaces (s : Blue.ConcLog.St) : List String :=
+  let offs := (s.groups.map fun g => offsetsIn g 0).flatten
+  (List.range s.bufs.length).map fun i =>
+    match s.wrets[i]?, offs[i]? with
+    | some w, some o => toString w.round ++ "." ++ toString o
+    | _, _ => "-"
+
+def dash (xs : List String) : String := if xs.isEmpty then "-" else ",".intercalate xs
+
+/-- conclusion of `conc_log_file_is_sequential` on the state -/
+def concSeq (s : Blue.ConcLog.St) : Bool :=
+  let file := Blue.LogCrash.crashA s.file
+  let m := Blue.ConcLog.merged s
+  file == writeAll P m 0
+    && s.groups.flatten == s.bufs.take s.wrets.length
+    && m.flatten == (s.bufs.take s.wrets.length).flatten
+    && readAll P file (m.length + 1) 0 == some m
+
+/-- conclusion of `conc_log_ack_is_durable` on the state, for every acknowledged caller and
+    `t ∈ {0, |pending|/2, |pending|}` -/
+def concDur (s : Blue.ConcLog.St) : Bool :=
+  let m := Blue.ConcLog.merged s
+  let ends := frameEnds m 0
+  let ackd := (List.range s.bufs.length).filter (Blue.ConcLog.acked s)
+  let perCaller := ackd.all fun i =>
+    match s.wrets[i]?, s.bufs[i]? with
+    | some w, some b =>
+      match s.groups[w.round]?, ends[w.round]? with
+      | some grp, some e => grp.contains b && e ≤ (Blue.LogCrash.crashB s.file).length
+      | _, _ => false
+    | _, _ => false
+  let maxRound := ackd.foldl (fun a i => match s.wrets[i]? with | some w => max a (w.round + 1) | none => a) 0
+  let cuts := [0, s.file.pending.length / 2, s.file.pending.length]
+  perCaller && cuts.all fun t =>
+    let r := readSome P (s.file.synced ++ s.file.pending.take t) (m.length + 1) 0
+    match prefixLen r.1 m 0 with
+    | some j => maxRound ≤ j && j ≤ m.length
+    | none => false
+
+/-- reverse every maximal run of consecutive `flink` events -/
+def reverseFlinks : List Blue.ConcLog.Ev → List Blue.ConcLog.Ev → List Blue.ConcLog.Ev
+  | [], acc => acc
+  | .flink i :: rest, acc => reverseFlinks rest (.flink i :: acc)
+  | e :: rest, acc => acc ++ e :: reverseFlinks rest []
+
+def concObs (lim : Nat) (evs : List Blue.ConcLog.Ev) (s : Blue.ConcLog.St) : String :=
+  let file := Blue.LogCrash.crashA s.file
+  "len=" ++ toString file.length ++ " fnv=" ++ hex64 (fnv file)
+    ++ " ans=" ++ dash (concAns s) ++ " wr=" ++ dash (concPlaces s)
+    ++ " written=" ++ toString s.written
+    ++ " synced=" ++ dash ((syncedAfterFrets lim evs).map toString)
+    ++ " core=" ++ toString s.fs.synced
+
+def handleConc : List String → String
+  | limTok :: "::" :: evToks =>
+    match (if limTok.startsWith "lim=" then (limTok.drop 4).toString.toNat? else none),
+          allSome ((evToks.filter (· ≠ "")).map parseConcEv) with
+    | some lim, some evs =>
+      if lim > P.tableFull then "bad-op"
+      else
+        let s := Blue.ConcLog.run P lim evs
+        let obs := concObs lim evs s
+        let evs' := reverseFlinks evs []
+        let t2 := Task.spawn fun _ => concObs lim evs' (Blue.ConcLog.run P lim evs')
+        let tq := Task.spawn fun _ => concSeq s
+        let td := Task.spawn fun _ => concDur s
+        obs ++ " seq=" ++ (if tq.get then "1" else "0") ++ " dur=" ++ (if td.get then "1" else "0")
+          ++ " ord=" ++ (if t2.get == obs then "1" else "0")
     | _, _ => "bad-op"
   | _ => "bad-op"
 
